@@ -403,6 +403,13 @@ func (r *Run) rangeIter(fr *frame, instr *ssa.Range, x value, t types.Type) iter
 		return &mapIter{entries: es}
 	case string:
 		return &stringIter{Reader: strings.NewReader(x)}
+	case runesV:
+		if x.bytes {
+			r.asciiVector(x.cps, "range")
+		} else {
+			panic(unsupported("range over a rune vector (byte offsets are symbolic)"))
+		}
+		return &vecIter{v: x}
 	case nativeV:
 		return r.nativeRange(x)
 	}
